@@ -438,6 +438,21 @@ def _alarm_handler(signum, frame):
     raise Watchdog()
 
 
+def is_watchdog(e: BaseException) -> bool:
+    """The watchdog itself, or what is left of it when SIGALRM arrives while
+    Python runs inside a ctypes call-back of Z3: ctypes turns the exception
+    into ``ctypes.ArgumentError('argument 2: Watchdog: ')``."""
+    seen = 0
+    while e is not None and seen < 8:
+        if isinstance(e, Watchdog) or "Watchdog" in type(e).__name__:
+            return True
+        if type(e).__name__ == "ArgumentError" and "Watchdog" in str(e):
+            return True
+        e = e.__cause__ or e.__context__
+        seen += 1
+    return False
+
+
 def struct_to_json(t) -> Any:
     """DerivationTree -> nested lists [value, children|None] (attributes only)."""
     return [t.value, None if t.children is None else [struct_to_json(c) for c in t.children]]
@@ -490,15 +505,21 @@ def check_tree(case: Dict[str, Any], tree, formula, eval_budget_s: int = 20) -> 
     out["valid"] = reftree.ref_valid(grammar, tree, root)
     out["root"] = tree.value
     out["wrapped"] = None
-    if not out["valid"] and root != "<start>" and tree.value == "<start>" and tree.children is not None \
-            and len(tree.children) == 1 and reftree.ref_valid(grammar, tree.children[0], root):
-        # the requested start symbol sits below an extra <start> node
-        out["wrapped"] = "valid-under-<start>" if reftree.ref_valid(grammar, tree, "<start>") else "not-a-rule"
+    if not out["valid"] and root != "<start>" and tree.value == "<start>":
+        # A requested start symbol S makes the solver work on the grammar with
+        # `<start> ::= S` (solver.py, ISLaSolver.__init__); the property allows
+        # a solution rooted "at the start symbol (or the requested start
+        # symbol)", so a tree rooted at <start> is judged against that
+        # effective grammar (see DESIGN.md 11.2).
+        grammar = dict(grammar)
+        grammar["<start>"] = [root]
+        out["valid"] = reftree.ref_valid(grammar, tree, "<start>")
+        out["wrapped"] = "effective-grammar"
     out["member"] = reftree.ref_member(grammar, s, root) if len(s) <= 200 else None
     out["eval"] = None
     out["exact"] = None
     out["eval_note"] = None
-    if out["open"] or (not out["valid"] and out["wrapped"] != "valid-under-<start>"):
+    if out["open"] or not out["valid"]:
         out["eval_note"] = "not evaluated: tree open or not a derivation tree"
         out["struct"] = struct_to_json(tree)
         return out
@@ -560,6 +581,8 @@ def run_solver_case(case: Dict[str, Any]) -> Dict[str, Any]:
         except Watchdog:
             raise
         except BaseException as e:
+            if is_watchdog(e):
+                raise Watchdog() from None
             rec["ctor_exc"] = _exc_record(e)
             return rec
         terminal_seen = False
@@ -569,6 +592,8 @@ def run_solver_case(case: Dict[str, Any]) -> Dict[str, Any]:
             except Watchdog:
                 raise
             except BaseException as e:
+                if is_watchdog(e):
+                    raise Watchdog() from None
                 er = _exc_record(e)
                 rec["calls"].append(er)
                 if er["type"] in TERMINAL:
@@ -587,6 +612,8 @@ def run_solver_case(case: Dict[str, Any]) -> Dict[str, Any]:
                 except Watchdog:
                     raise
                 except BaseException as e:
+                    if is_watchdog(e):
+                        raise Watchdog() from None
                     rec["post"].append(_exc_record(e))
     except Watchdog:
         rec["watchdog"] = True
